@@ -21,12 +21,12 @@ pub fn def() -> PropDef {
     PropDef {
         id: "C20",
         level: "fault_enumeration",
-        rule: "writes: generated chunk/flush/short-write patterns through ManagedDirectory::open_write (non-trivial = >8 KiB total, a chunk >= BufWriter capacity or a short write, >=2 chunks). damage: generated small indexes (1-4 segments, optional deletes) x generated damages of one or two segment files (single bit flips incl. exhaustive all-bits sweeps of small files, byte substitutions, multi-byte damage, body truncation with intact footer, whole-file truncation at any length, insertions, appended bytes) checked against Index::validate_checksum (non-trivial = damage position neither first nor last byte of the body and file not the smallest of its index; distinct by (index spec, file, damage)). versions: footers rewritten with generated index_format_version values.",
+        rule: "writes: generated chunk/flush/short-write patterns through ManagedDirectory::open_write (non-trivial = >8 KiB total, a chunk >= BufWriter capacity or a short write, >=2 chunks). damage: generated small indexes (1-4 segments, optional deletes) x generated damages of one or two segment files (single bit flips incl. exhaustive all-bits sweeps of small files, byte substitutions, multi-byte damage, body truncation with intact footer, whole-file truncation at any length, insertions, appended bytes) checked against Index::validate_checksum (non-trivial = damage position neither first nor last byte of the body and file not the smallest of its index; distinct by (index spec, file, damage)). versions: footers rewritten with generated index_format_version values. writes also repeats every write pattern with one write call of the underlying writer failing (the last one = the footer, or a generated one): a terminate() that returns Ok means the file reads back exactly and passes its checksum. coverage: generated histories on SimDir end with the garbage collection of a merge held at one of its deletions while an indexing worker registers the files of a new segment; after the commit one bit of one file of a committed segment is flipped and validate_checksum (writing Index and a fresh Index::open) must report exactly that file.",
         assumptions: vec![
             "CRC32 collisions (2^-32 per damage) are recomputed independently with crc32fast and skipped, counted in counters.crc_collisions_skipped",
             "storage is RamDirectory (plus a short-write wrapper); damage is applied to the raw bytes below ManagedDirectory",
         ],
-        subs: vec![Box::new(Writes), Box::new(Damage), Box::new(Versions)],
+        subs: vec![Box::new(Writes), Box::new(Damage), Box::new(Versions), Box::new(Coverage)],
     }
 }
 
@@ -65,14 +65,23 @@ fn looks_intact(raw: &[u8]) -> bool {
 struct ShortDir {
     ram: RamDirectory,
     limits: Arc<Vec<usize>>,
+    /// number of write calls received so far (all writers of this directory), and the call that fails (usize::MAX = none)
+    calls: Arc<std::sync::atomic::AtomicUsize>,
+    fail_at: Arc<std::sync::atomic::AtomicUsize>,
 }
 struct ShortWriter {
     inner: WritePtr,
     limits: Arc<Vec<usize>>,
     n: usize,
+    calls: Arc<std::sync::atomic::AtomicUsize>,
+    fail_at: Arc<std::sync::atomic::AtomicUsize>,
 }
 impl Write for ShortWriter {
     fn write(&mut self, buf: &[u8]) -> io::Result<usize> {
+        let call = self.calls.fetch_add(1, std::sync::atomic::Ordering::SeqCst);
+        if call == self.fail_at.load(std::sync::atomic::Ordering::SeqCst) {
+            return Err(io::Error::other("injected write fault"));
+        }
         let lim = if self.limits.is_empty() { usize::MAX } else { self.limits[self.n % self.limits.len()] };
         self.n += 1;
         let k = buf.len().min(lim.max(1));
@@ -117,7 +126,7 @@ impl Directory for ShortDir {
     }
     fn open_write(&self, path: &Path) -> Result<WritePtr, OpenWriteError> {
         let inner = self.ram.open_write(path)?;
-        Ok(io::BufWriter::with_capacity(0, Box::new(ShortWriter { inner, limits: self.limits.clone(), n: 0 })))
+        Ok(io::BufWriter::with_capacity(0, Box::new(ShortWriter { inner, limits: self.limits.clone(), n: 0, calls: self.calls.clone(), fail_at: self.fail_at.clone() })))
     }
     fn atomic_read(&self, path: &Path) -> Result<Vec<u8>, OpenReadError> {
         self.ram.atomic_read(path)
@@ -141,6 +150,10 @@ pub struct WriteCase {
     /// per-write acceptance limits of the underlying writer (empty = accepts everything)
     limits: Vec<u32>,
     salt: u8,
+    /// after the fault-free run the same writes are repeated with one write call of the underlying writer failing:
+    /// None = the last call (the one that carries the end of the footer), Some(r) = call number idx(r, number of calls)
+    #[serde(default)]
+    fault: Option<Option<u16>>,
 }
 pub struct Writes;
 impl Sub for Writes {
@@ -164,16 +177,19 @@ impl Sub for Writes {
             prop::collection::vec((len, prop_oneof![4 => Just(0u8), 1 => Just(1u8)]), 0..12),
             prop_oneof![2 => Just(vec![]), 3 => prop::collection::vec(limit, 1..4)],
             any::<u8>(),
+            prop_oneof![2 => Just(None), 2 => Just(Some(None)), 3 => any::<u16>().prop_map(|r| Some(Some(r)))],
         )
-            .prop_map(|(chunks, limits, salt)| WriteCase { chunks, limits, salt })
+            .prop_map(|(chunks, limits, salt, fault)| WriteCase { chunks, limits, salt, fault })
             .boxed()
     }
     fn mandatory_labels(&self, _t: Tier) -> Vec<&'static str> {
-        vec!["short_writes", "chunk>=8192", "total>8192"]
+        vec!["short_writes", "chunk>=8192", "total>8192", "write_fault:footer_write", "write_fault:terminate_reported_it", "write_fault:body_write"]
     }
     fn run(&self, c: &WriteCase, cx: &Ctx) -> CaseResult {
         let ram = RamDirectory::create();
-        let short = ShortDir { ram: ram.clone(), limits: Arc::new(c.limits.iter().map(|l| *l as usize).collect()) };
+        let calls = Arc::new(std::sync::atomic::AtomicUsize::new(0));
+        let fail_at = Arc::new(std::sync::atomic::AtomicUsize::new(usize::MAX));
+        let short = ShortDir { ram: ram.clone(), limits: Arc::new(c.limits.iter().map(|l| *l as usize).collect()), calls: calls.clone(), fail_at: fail_at.clone() };
         let managed = ManagedDirectory::wrap(Box::new(short)).or_fail("wrap")?;
         let path = Path::new("file.bin");
         let mut w = managed.open_write(path).or_fail("open_write")?;
@@ -217,6 +233,57 @@ impl Sub for Writes {
         cx.label_if(total == 0, "empty_file");
         if total > 8192 && (big_chunk || short_w) && c.chunks.len() >= 2 {
             cx.nontrivial(fp(c));
+        }
+        // (4) the same writes once more, with one write call of the underlying writer failing: whatever call fails,
+        // a terminate() that returns Ok means the file is complete - body, footer, checksum
+        if let Some(which) = c.fault {
+            let n_calls = calls.load(std::sync::atomic::Ordering::SeqCst);
+            if n_calls > 0 {
+                let k = match which {
+                    None => n_calls - 1,
+                    Some(r) => idx(r, n_calls),
+                };
+                calls.store(0, std::sync::atomic::Ordering::SeqCst);
+                fail_at.store(k, std::sync::atomic::Ordering::SeqCst);
+                let path2 = Path::new("file2.bin");
+                let mut w = managed.open_write(path2).or_fail("open_write")?;
+                let mut all_ok = true;
+                let mut x = c.salt as u32 | 0x100;
+                let mut body_calls_before_fault = true;
+                for (len, act) in &c.chunks {
+                    let mut chunk = Vec::with_capacity(*len as usize);
+                    for _ in 0..*len {
+                        x = x.wrapping_mul(1664525).wrapping_add(1013904223);
+                        chunk.push((x >> 24) as u8);
+                    }
+                    all_ok &= w.write_all(&chunk).is_ok();
+                    if *act == 1 {
+                        all_ok &= w.flush().is_ok();
+                    }
+                    if !all_ok {
+                        body_calls_before_fault = false;
+                        break;
+                    }
+                }
+                if all_ok {
+                    let t = w.terminate();
+                    let fired = calls.load(std::sync::atomic::Ordering::SeqCst) > k;
+                    cx.label_if(fired && k + 3 >= n_calls, "write_fault:footer_write");
+                    match t {
+                        Err(_) => cx.label("write_fault:terminate_reported_it"),
+                        Ok(()) => {
+                            let got = managed.open_read(path2).map_err(|e| Failure::new("terminate_ok_but_file_unreadable", format!("write call {k} of {n_calls} failed, terminate() returned Ok, open_read: {e:?}")))?;
+                            let got = got.read_bytes().or_fail("read_bytes")?;
+                            ensure!(got.as_slice() == expected.as_slice(), "terminate_ok_but_content_differs", "write call {k} of {n_calls} failed, terminate() returned Ok; read back {} bytes, written {}", got.len(), expected.len());
+                            ensure!(managed.validate_checksum(path2).unwrap_or(false), "terminate_ok_but_checksum_invalid", "write call {k} of {n_calls} failed, terminate() returned Ok");
+                        }
+                    }
+                } else {
+                    drop(w);
+                }
+                cx.label_if(!body_calls_before_fault, "write_fault:body_write");
+                fail_at.store(usize::MAX, std::sync::atomic::Ordering::SeqCst);
+            }
         }
         cx.sample(|| json!({"sub":"writes","chunks":c.chunks,"limits":c.limits}));
         Ok(())
@@ -636,6 +703,161 @@ impl Sub for Versions {
             cx.nontrivial(mix(fp(&c.index), mix(fi as u64, c.version as u64)));
         }
         cx.sample(|| json!({"sub":"versions","file":files[fi].to_str(),"version":c.version}));
+        Ok(())
+    }
+}
+
+// ------------------------------------------------------------------------------------------------
+/// `coverage`: validation walks every component of every committed segment, whatever the history that produced the
+/// segments - including segments whose files were created while a garbage collection was deleting other files.
+/// A generated history (C02's alphabet) runs on SimDir; then, with >= 2 committed segments, the garbage collection that
+/// ends a merge is held at one of its deletions while an indexing worker starts a new segment; after the commit one
+/// bit of one file of one committed segment is flipped: validate_checksum must name exactly that file, through the
+/// writing Index and through a fresh Index::open.
+#[derive(Clone, Debug, Serialize, Deserialize)]
+pub struct CoverageCase {
+    pub cfg: crate::hist::HistCfg,
+    pub prefix: Vec<crate::hist::Op>,
+    pub adds: Vec<crate::hist::AddSpec>,
+    /// hold the collector at its n-th deletion
+    pub nth: u8,
+    /// victim file (fraction of the committed files), byte (fraction of the body), bit
+    pub victim: (u16, u16, u8),
+}
+pub struct Coverage;
+impl Sub for Coverage {
+    type Case = CoverageCase;
+    fn name(&self) -> &'static str {
+        "coverage"
+    }
+    fn cases(&self, tier: Tier) -> u32 {
+        tier.pick(400, 6000)
+    }
+    fn shards(&self, _t: Tier) -> usize {
+        8
+    }
+    fn max_shrink_iters(&self) -> u32 {
+        200
+    }
+    fn strategy(&self, _tier: Tier) -> BoxedStrategy<CoverageCase> {
+        use crate::hist::*;
+        static DIRS: [DirKind; 1] = [DirKind::Sim];
+        let cfg = cfg_strategy(&DIRS).prop_map(|mut c| {
+            c.threads = c.threads.min(3);
+            c.policy = Policy::NoMerge;
+            c.short_writes = false;
+            c
+        });
+        let prefix_op = prop_oneof![8 => add_strategy().prop_map(Op::Add), 1 => any::<u16>().prop_map(Op::DelUid), 3 => Just(Op::Commit), 1 => Just(Op::Rollback), 1 => any::<u16>().prop_map(Op::Merge)];
+        (cfg, prop::collection::vec(prefix_op, 3..24), prop::collection::vec(add_strategy(), 1..5), 0u8..5, (any::<u16>(), any::<u16>(), 0u8..8))
+            .prop_map(|(cfg, prefix, adds, nth, victim)| CoverageCase { cfg, prefix, adds, nth, victim })
+            .boxed()
+    }
+    fn mandatory_labels(&self, _t: Tier) -> Vec<&'static str> {
+        vec!["collector_held_while_files_are_registered", "victim_in_segment_created_during_collection", "victim_in_older_segment"]
+    }
+    fn run(&self, c: &CoverageCase, cx: &Ctx) -> CaseResult {
+        use crate::hist::*;
+        use crate::simdir::{GateSpec, K};
+        use std::time::Duration;
+        let mut env = Env::new(c.cfg.clone())?;
+        env.check_quiescence = false;
+        env.skip_dirty_delete_all = true;
+        let DirHandle::Sim(sd) = &env.dir else { return Err(Failure::new("INFRA:not_sim", "")) };
+        let sd = sd.clone();
+        sd.set_logging(true, false);
+        for op in &c.prefix {
+            env.apply(op, cx)?;
+        }
+        env.apply(&Op::Commit, cx)?;
+        let mut ids = env.index.searchable_segment_ids().or_fail("segment_ids_failed")?;
+        if ids.len() < 2 {
+            // make a second segment
+            for a in &c.adds {
+                env.apply(&Op::Add(a.clone()), cx)?;
+            }
+            env.apply(&Op::Commit, cx)?;
+            ids = env.index.searchable_segment_ids().or_fail("segment_ids_failed")?;
+        }
+        let mut new_files: std::collections::BTreeSet<String> = Default::default();
+        if ids.len() >= 2 {
+            let gate = sd.add_gate(GateSpec { thread: "segment_updater".into(), kind: Some(K::Delete), path_suffix: String::new(), nth: c.nth as usize, max_hold: Duration::from_millis(250) });
+            let fut = env.writer.as_mut().unwrap().merge(&ids);
+            let reached = sd.wait_reached(gate, Duration::from_millis(300));
+            let before = sd.log_len();
+            for a in &c.adds {
+                env.apply(&Op::Add(a.clone()), cx)?;
+            }
+            // wait (bounded) until a worker has created the files of the new segment
+            let t0 = std::time::Instant::now();
+            loop {
+                new_files = sd.clone_log().iter().skip(before).filter(|o| o.kind == K::Create && o.thread.starts_with("thrd-tantivy-index")).map(|o| o.path.to_string_lossy().to_string()).collect();
+                if new_files.len() >= 5 || t0.elapsed() > Duration::from_millis(150) {
+                    break;
+                }
+                std::thread::sleep(Duration::from_millis(1));
+            }
+            cx.label_if(reached && sd.gate_pending(gate) && !new_files.is_empty(), "collector_held_while_files_are_registered");
+            sd.disarm(gate);
+            let _ = fut.wait();
+        } else {
+            for a in &c.adds {
+                env.apply(&Op::Add(a.clone()), cx)?;
+            }
+        }
+        env.apply(&Op::Commit, cx)?;
+        {
+            let w = env.writer.take().unwrap();
+            w.wait_merging_threads().or_fail("wait_merging_threads_failed")?;
+        }
+        // the files of the committed segments
+        let mut files: Vec<String> = vec![];
+        {
+            let metas = env.index.searchable_segment_metas().or_fail("metas_failed")?;
+            for m in &metas {
+                for f in m.list_files() {
+                    let name = f.to_string_lossy().to_string();
+                    if sd.st.lock().unwrap().files.contains_key(&f) {
+                        files.push(name);
+                    }
+                }
+            }
+        }
+        files.sort();
+        if files.is_empty() {
+            return Ok(());
+        }
+        // prefer (every other case) a file of the segment that was created during the collection
+        let during: Vec<String> = files.iter().filter(|f| new_files.contains(*f)).cloned().collect();
+        let victim = if !during.is_empty() && c.victim.2 % 2 == 0 { during[idx(c.victim.0, during.len())].clone() } else { files[idx(c.victim.0, files.len())].clone() };
+        cx.label_if(new_files.contains(&victim), "victim_in_segment_created_during_collection");
+        cx.label_if(!new_files.contains(&victim), "victim_in_older_segment");
+        let vpath = PathBuf::from(&victim);
+        {
+            let mut st = sd.st.lock().unwrap();
+            let data = st.files.get(&vpath).cloned().unwrap();
+            let Some((body_len, _)) = split_footer(&data) else { return Err(Failure::new("no_footer", format!("{victim}: {} bytes", data.len()))) };
+            if body_len == 0 {
+                return Ok(());
+            }
+            let mut bytes = (*data).clone();
+            bytes[idx(c.victim.1, body_len)] ^= 1 << (c.victim.2 % 8);
+            st.files.insert(vpath.clone(), Arc::new(bytes));
+        }
+        cx.evals(1);
+        for (what, ix) in [("writing index", env.index.clone()), ("fresh Index::open", Index::open(sd.clone()).or_fail("index_open_failed")?)] {
+            let bad = ix.validate_checksum().or_fail("validate_checksum_failed")?;
+            ensure!(
+                bad.contains(&vpath),
+                "damaged_file_not_reported",
+                "{what}: one bit of {victim} (file of a committed segment{}) was flipped, validate_checksum reports {bad:?}; managed files: {}",
+                if new_files.contains(&victim) { ", created while a garbage collection was deleting files" } else { "" },
+                ix.directory().list_managed_files().len()
+            );
+            ensure!(bad.len() == 1, "undamaged_file_reported", "{what}: only {victim} was damaged, validate_checksum reports {bad:?}");
+        }
+        cx.nontrivial(fp(c));
+        cx.sample(|| json!({"sub": "coverage", "cfg": c.cfg, "prefix": c.prefix.len(), "victim": victim}));
         Ok(())
     }
 }
